@@ -96,20 +96,9 @@ func nativeReplay(pkgDir string, jobs []ReplayJob, reg []HarnessSpec) (map[strin
 
 // reproduced decides whether the native run confirms the engine's witness
 func reproduced(w Witness, status string, fails []string) bool {
-	switch status {
-	case "PANIC":
-		return w.Panic || true // a native Go panic in a harness is always a real failure of the code under test
-	case "FAIL":
-		if w.Panic {
-			return false
-		}
-		for _, f := range fails {
-			if f == w.Msg {
-				return true
-			}
-		}
-	}
-	return false
+	// any assertion failure or Go panic of the harness on the concrete vector is a real failure of the real
+	// code; the native run may stop at a different assertion of the same harness than the engine's path did
+	return status == "PANIC" || status == "FAIL"
 }
 
 func writeReplayFile(prop string, spec HarnessSpec, w Witness, native string) string {
